@@ -27,6 +27,7 @@ def gen_c02(tier, seed):
         parts = ["N 0"]
         ev = []
         ops = []
+        late = []   # faults armed right after start
         meta = {}
         t = 5
         if tmpl == 0:
@@ -134,19 +135,19 @@ def gen_c02(tier, seed):
             ops.append("RD 0 1 4096")
         if tmpl in (0, 1, 2, 4) and i % 5 == 0:
             # an interrupted read()/write() (EINTR) must not lose or close anything: the call may fail,
-            # the stream stays as it was. Index 2+ skips the two error-pipe reads of start.
+            # the stream stays as it was. Armed after start, counted from there.
             fn = "write" if tmpl in (2, 4) and r.random() < 0.6 else "read"
-            k = (2 + r.randrange(4)) if fn == "read" else r.randrange(3)
-            parts.insert(0, "F 0 %s %d 4" % (fn, k))
+            k = r.randrange(4) if fn == "read" else r.randrange(3)
+            late.append("FR %s %d 4" % (fn, k))
             meta["fault"] = (fn, k)
         elif i % 5 in (1, 2) and i % 3 == 0:
             # short transfers: the kernel takes or hands over only part of what was asked for
             for _ in range(r.randint(1, 3)):
                 fn = r.choice(["read", "write"])
-                parts.insert(0, "F 0 %s %d 50000" % (fn, (2 + r.randrange(6)) if fn == "read" else r.randrange(5)))
+                late.append("FR %s %d 50000" % (fn, r.randrange(6) if fn == "read" else r.randrange(5)))
             meta["short"] = 1
         parts.append(start_tokens(0, o))
-        parts += ev + ops + ["D 0"]
+        parts += late + ev + ops + ["D 0"]
         meta["handles"] = {0: o}
         meta["tmpl"] = tmpl
         cases.append(Case("c02-%d" % i, " ; ".join(parts), meta, "c02/%d/%d" % (tmpl, i)))
